@@ -575,6 +575,9 @@ HINTS = {
     ("GraphEdgesVariables", "lit"): graph_edge_lit,
     ("GraphEdgesVariables", "formula"): lambda rng, ctx: rng.choice([0, 0, 3, 10]),
     ("PerfectMatchingPrinciple", "G"): lambda rng, ctx: _gen_graph(rng),
+    ("CliqueFormula", "G"): lambda rng, ctx: _gen_graph(rng),
+    ("CliqueFormula", "k"): lambda rng, ctx: rng.choice([0, 1, 2, 3, 4, -1]),
+    ("non_edges", "G"): lambda rng, ctx: _gen_graph(rng),
     ("GraphColoringFormula", "G"): lambda rng, ctx: _gen_graph(rng),
     ("GraphColoringFormula", "colors"): lambda rng, ctx: rng.choice([0, 1, 2, 3, 4, -1]),
     ("EvenColoringFormula", "G"): lambda rng, ctx: _gen_even_graph(rng),
